@@ -82,13 +82,15 @@ class LpNorm(Functional):
         if self.exponent == 0:
             return self.domain.one().inner(np.not_equal(x, 0))
         elif self.exponent == 1:
-            return x.ufuncs.absolute().inner(self.domain.one())
+            # For complex spaces, ``|x|`` lies in the real space
+            tmp = x.ufuncs.absolute()
+            return tmp.inner(tmp.space.one())
         elif self.exponent == 2:
             return np.sqrt(x.inner(x))
         elif np.isfinite(self.exponent):
             tmp = x.ufuncs.absolute()
             tmp.ufuncs.power(self.exponent, out=tmp)
-            return np.power(tmp.inner(self.domain.one()), 1 / self.exponent)
+            return np.power(tmp.inner(tmp.space.one()), 1 / self.exponent)
         elif self.exponent == np.inf:
             return x.ufuncs.absolute().ufuncs.max()
         elif self.exponent == -np.inf:
